@@ -77,6 +77,15 @@ def run_actor(ctx, prop):
             ctx.violations.append({"what": "C11: a request was answered with a shut-down / dropped-response error: the actor stopped serving", "input": inp})
             continue
         order = [(d["progs"][i][j], d["answers"][i][j]) for i, j in d["order"]]
+        times = [rq[5] for rq, _ in order]
+        monotone = all(a <= b for a, b in zip(times, times[1:]))
+        dist["orders_with_time_regression"] = dist.get("orders_with_time_regression", 0) + (not monotone)
+        if not monotone and d["clean"]:
+            # timestamps regress along the processing order AND the store reclaims aggressively: the store may forget an entry
+            # relative to a later timestamp (stale-forget, the C17 known finding), which the abstract expiring map of the model
+            # does not do; such schedules are covered by the implementation-side oracles above only
+            dist["not_replayed_on_model"] = dist.get("not_replayed_on_model", 0) + 1
+            continue
         terms.append(C.coq_list(["(%s, %s)" % (LC.req_term(rq), out_term(a)) for rq, a in order]))
         idx.append(n)
     mism, _ = C.coq_mismatches(ctx, "actor_" + prop, HEADER, "actor_case_ok", terms, shard=60)
